@@ -1,1 +1,34 @@
-From Verif Require Import Base.Harness Model.Ledger.
+(* C05 — The staked-token ledger is always backed by the staking pools.
+   Partial by construction: x/staking itself is exercised through the history driver; the
+   machine below keeps the pool/ledger bookkeeping of every Layer flow that moves stake. *)
+From Coq Require Import ZArith List.
+From Verif Require Import Model.Escrow Model.Ledger Proofs.EscrowProofs.
+Import ListNotations.
+Open Scope Z_scope.
+
+Theorem C05_pools_back_ledger_step s o s' : pinv s -> pstep s o = Some s' -> pinv s'.
+Proof. exact (pstep_inv s o s'). Qed.
+Print Assumptions C05_pools_back_ledger_step.
+
+Theorem C05_pools_back_ledger ops s : pinv s -> pinv (fold_left pstep_total ops s).
+Proof. exact (prun_inv ops s). Qed.
+Print Assumptions C05_pools_back_ledger.
+
+(* stake taken for a dispute or a fee leaves ledger and pool by the same amount *)
+Theorem C05_escrow_conserves s a s' : pstep s (PEscrowBonded a) = Some s' ->
+  p_bonded s - p_bonded s' = a /\ p_bonded_ledger s - p_bonded_ledger s' = a /\ p_dispute s' - p_dispute s = a.
+Proof. exact (escrow_moves_equal s a s'). Qed.
+Print Assumptions C05_escrow_conserves.
+
+(* stake put back enters both by the same amount, except the dust that stays in the pool *)
+Theorem C05_return_conserves s amount dust tb s' : pstep s (PReturn amount dust tb) = Some s' ->
+  (p_bonded s' + p_notbonded s') - (p_bonded s + p_notbonded s) = amount /\
+  (p_bonded_ledger s' + p_notbonded_ledger s') - (p_bonded_ledger s + p_notbonded_ledger s) = amount - dust /\
+  (p_bonded s' - p_bonded_ledger s') - (p_bonded s - p_bonded_ledger s) = dust.
+Proof. exact (return_moves_equal_up_to_dust s amount dust tb s'). Qed.
+Print Assumptions C05_return_conserves.
+
+Theorem C05_return_to_unbonded_refuted :
+  exists s amount, pinv s /\ 0 < amount <= p_dispute s /\ ~ pinv (pstep_return_as_found s amount).
+Proof. exact return_as_found_refuted. Qed.
+Print Assumptions C05_return_to_unbonded_refuted.
